@@ -123,7 +123,7 @@ class _Handler:
                     conn.finish()
                 ex['sent'] = (sent, resp.truncate_kind)
             else:
-                if resp.surplus:
+                if resp.surplus and not resp.desc.get('stray_crlf'):
                     # surplus must reach the client in the same read as body bytes (the case wpull handles by
                     # cutting at Content-Length); a separately delivered surplus is C08's known finding K1
                     conn.send(wire, mode=0)
@@ -173,7 +173,7 @@ def gen_exchanges(tape, phase, n, faults_on, same_pool):
     for i in range(n):
         m = tape.weighted([(6, 'GET'), (1, 'HEAD'), (1, 'POST')], 'method')
         resp = httpgen.gen_response(tape, method='HEAD' if m == 'HEAD' else 'GET', allow_truncate=faults_on,
-                                    allow_surplus=faults_on, surplus_same_read_only=True, content_types=CONTENT_TYPES if not tape.chance(1, 6, 'noct') else None)
+                                    allow_surplus=faults_on, surplus_same_read_only=True, allow_stray_crlf=True, content_types=CONTENT_TYPES if not tape.chance(1, 6, 'noct') else None)
         if tape.chance(1, 12, 'huge_header'):
             # header block larger than 4 KiB; or right at the largest size the HTTP stream reader accepts (32768 bytes of
             # status line + field lines, the blank line not counted)
